@@ -18,10 +18,12 @@ open Pyxv Pyxv.Defaults Pyxv.Lexer List
     `Pyxv.Lexer.pinned` were written for -/
 theorem lexer_rules_pinned : Pyxv.Gen.lexerRules = Lexer.pinnedSources := by decide +kernel
 
-/-- the two string sets of `utils.default_is_dynamic` -/
+/-- the three string sets of `utils.default_is_dynamic` (hyphen data types, dynamic token names, and — d989f12 —
+    the token names that keep a hyphenated date/geo default dynamic) -/
 theorem dynamic_sets_pinned :
-    Pyxv.Gen.defaultHyphenTypes = ["date", "dateTime", "geopoint", "geotrace", "geoshape"] ∧
-    Pyxv.Gen.defaultDynamicTokenNames = ["OPS_MATH", "OPS_UNION", "XPATH_PRED", "PYXFORM_REF", "FUNC_CALL"] := by
+    Pyxv.Gen.defaultHyphenTypes = Lexer.pinnedHyphenTypes ∧
+    Pyxv.Gen.defaultDynamicTokenNames = Lexer.pinnedDynNames ∧
+    Pyxv.Gen.defaultHyphenOverrideNames = Lexer.pinnedOverrideNames := by
   decide +kernel
 
 /-! ## lexer -/
@@ -39,7 +41,7 @@ theorem active_rules_pinned : Lexer.activeRules = some Lexer.pinnedRules := by
 theorem classification_is_pinned (dflt ty : Str) :
     Lexer.defaultIsDynamic dflt ty = some (Lexer.dynamicPinned dflt ty) := by
   unfold Lexer.defaultIsDynamic Lexer.dynamicWith Lexer.dynamicPinned
-  rw [active_rules_pinned, dynamic_sets_pinned.1, dynamic_sets_pinned.2]
+  rw [active_rules_pinned, dynamic_sets_pinned.1, dynamic_sets_pinned.2.1, dynamic_sets_pinned.2.2]
   rfl
 
 /-- `re.Scanner.scan` loses nothing: token values followed by the remainder are the input, for every
@@ -70,31 +72,39 @@ theorem scan_remainder_empty (s : Str) : ∃ toks, Lexer.scan s = some (toks, []
     rw [hrem, List.append_nil] at this
     exact this
 
-/-- anything containing a function-call / operator / reference token is dynamic (element types
-    other than the hyphen types; for those see `hyphen_type_exception`) -/
+/-- anything containing a function-call / operator / reference token is dynamic (questions whose DATA type
+    is not one of the hyphen types; for those see `hyphen_type_exception`) -/
 theorem dynamic_of_token (rules : Rules) (dflt ty : Str)
-    (hty : Pyxv.Gen.defaultHyphenTypes.contains (String.ofList ty) = false) (hne : dflt ≠ [])
+    (hty : Pyxv.Gen.defaultHyphenTypes.contains (String.ofList (Lexer.dataTypeOf ty)) = false) (hne : dflt ≠ [])
     (h : ∃ t ∈ (scanWith rules dflt).1, Pyxv.Gen.defaultDynamicTokenNames.contains t.1 = true) :
     dynamicWith rules dflt ty = true := by
   unfold dynamicWith
   have : dflt.isEmpty = false := by cases dflt <;> simp_all
   simp only [this, hty]
-  exact dynLoop_true_of_mem _ _ h
+  exact dynLoop_true_of_mem _ _ _ h
 
-/-- a default without any such token is static, for every element type -/
+/-- a default without any such token (and without a reference / call token) is static, for every element type -/
 theorem static_of_no_token (rules : Rules) (dflt ty : Str)
-    (h : ∀ t ∈ (scanWith rules dflt).1, Pyxv.Gen.defaultDynamicTokenNames.contains t.1 = false) :
+    (h : ∀ t ∈ (scanWith rules dflt).1, Pyxv.Gen.defaultDynamicTokenNames.contains t.1 = false)
+    (h2 : ∀ t ∈ (scanWith rules dflt).1, Pyxv.Gen.defaultHyphenOverrideNames.contains t.1 = false) :
     dynamicWith rules dflt ty = false := by
   unfold dynamicWith
   split
   · rfl
-  · exact dynLoop_false_of_none _ _ _ h
+  · have hov : ((scanWith rules dflt).1.any fun t => Pyxv.Gen.defaultHyphenOverrideNames.contains t.1) = false := by
+      rw [List.any_eq_false]
+      intro t ht
+      have := h2 t ht
+      simpa using this
+    simp only [hov]
+    exact dynLoop_false_of_none _ _ _ h
 
-/-- the date-type exception: for a hyphen type, a lone `-` operator token met before any dynamic
-    token makes the default static whatever follows -/
-theorem hyphen_type_exception (names : List String) (pre post : List (String × Str))
+/-- the date-type exception as repaired (d989f12): for a hyphen data type, a lone `-` operator token met before any
+    dynamic token decides the classification — static, unless a `${reference}` or a function call occurs anywhere
+    in the default (`override`) -/
+theorem hyphen_type_exception (names : List String) (ov : Bool) (pre post : List (String × Str))
     (hpre : ∀ t ∈ pre, names.contains t.1 = false ∧ ¬ (t.1 = "OPS_MATH" ∧ t.2 = ['-'])) :
-    dynLoop names true (pre ++ ("OPS_MATH", ['-']) :: post) = false := by
+    dynLoop names true ov (pre ++ ("OPS_MATH", ['-']) :: post) = ov := by
   induction pre with
   | nil => simp [dynLoop]
   | cons t rest ih =>
@@ -106,13 +116,44 @@ theorem hyphen_type_exception (names : List String) (pre post : List (String × 
     · simp only [Bool.and_eq_true, beq_iff_eq] at hh; exact absurd hh h1.2
     · simp [hh, ih']
 
+/-- **a reference or a function call always makes the default dynamic** (d989f12), for EVERY question type —
+    the hyphen data types included, whatever hyphens precede it: the `${reference}` is expanded, never left as
+    literal text in the instance -/
+theorem reference_or_call_dynamic (dflt ty : Str) (hne : dflt ≠ [])
+    (h : ∃ t ∈ (scanWith pinnedRules dflt).1, Lexer.pinnedOverrideNames.contains t.1 = true) :
+    Lexer.defaultIsDynamic dflt ty = some true := by
+  rw [classification_is_pinned]
+  unfold Lexer.dynamicPinned
+  have he : dflt.isEmpty = false := by cases dflt <;> simp_all
+  have hov : ((scanWith pinnedRules dflt).1.any fun t => Lexer.pinnedOverrideNames.contains t.1) = true := by
+    rw [List.any_eq_true]
+    obtain ⟨t, ht, hc⟩ := h
+    exact ⟨t, ht, hc⟩
+  have hdyn : ∃ t ∈ (scanWith pinnedRules dflt).1, Lexer.pinnedDynNames.contains t.1 = true := by
+    obtain ⟨t, ht, hc⟩ := h
+    refine ⟨t, ht, ?_⟩
+    simp only [Lexer.pinnedOverrideNames, Lexer.pinnedDynNames, List.contains_cons, List.contains_nil,
+      Bool.or_false, Bool.or_eq_true, beq_iff_eq] at hc ⊢
+    rcases hc with hc | hc <;> simp [hc]
+  simp only [he, Bool.false_eq_true, if_false, hov]
+  exact congrArg some (dynLoop_true_of_override _ _ _ hdyn)
+
 theorem static_single_token (n : String) (v ty : Str) (hv : v ≠ [])
     (hn : Lexer.pinnedDynNames.contains n = false) (hscan : scanWith pinnedRules v = ([(n, v)], [])) :
     Lexer.defaultIsDynamic v ty = some false := by
   rw [classification_is_pinned]
   unfold Lexer.dynamicPinned
   have : v.isEmpty = false := by cases v <;> simp_all
-  simp only [this, Bool.false_eq_true, if_false, hscan]
+  have hov : Lexer.pinnedOverrideNames.contains n = false := by
+    have hsub : ∀ x, Lexer.pinnedOverrideNames.contains x = true → Lexer.pinnedDynNames.contains x = true := by
+      intro x hx
+      simp only [Lexer.pinnedOverrideNames, Lexer.pinnedDynNames, List.contains_cons, List.contains_nil,
+        Bool.or_false, Bool.or_eq_true, beq_iff_eq] at hx ⊢
+      rcases hx with rfl | rfl <;> simp
+    cases hc : Lexer.pinnedOverrideNames.contains n with
+    | false => rfl
+    | true => rw [hsub n hc] at hn; cases hn
+  simp only [this, Bool.false_eq_true, if_false, hscan, List.any_cons, List.any_nil, Bool.or_false, hov]
   rw [dynLoop_false_of_none]
   intro t ht
   simp only [List.mem_singleton] at ht
@@ -419,10 +460,16 @@ example : expSetP dynEx subEx (["data".toList, "r".toList, "b".toList], some ["d
   simp [expSetP, hasDynDefault, dynEx, exB, subEx]
 example : Lexer.allDigits "2024".toList := by intro c hc; simp at hc; rcases hc with rfl | rfl | rfl | rfl <;> decide
 example : 'y' ∈ Lexer.letters ∧ ∀ x ∈ "es_2".toList, x ∈ Lexer.wordChars := by decide
--- F47 on the model: the hyphen rule follows the type NAME
+-- former finding F47 (fixed by 5a69025) and d989f12 on the model: the hyphen rule follows the DATA type, and a reference / call overrides it
 example : Lexer.dynamicPinned "2020-01-01 - 1".toList "dateTime".toList = false
-    ∧ Lexer.dynamicPinned "2020-01-01 - 1".toList "datetime".toList = true
-    ∧ Lexer.dynamicPinned "2020-01-01T00:00:00".toList "datetime".toList = false := by decide +kernel
+    ∧ Lexer.dynamicPinned "2020-01-01 - 1".toList "datetime".toList = false
+    ∧ Lexer.dynamicPinned "- 5".toList "gps".toList = false
+    ∧ Lexer.dynamicPinned "2020-01-01 - ${a}".toList "date".toList = true
+    ∧ Lexer.dynamicPinned "1 - today()".toList "q date".toList = true
+    ∧ Lexer.dynamicPinned "2020-01-01T00:00:00".toList "datetime".toList = false
+    ∧ Lexer.dataTypeOf "gps".toList = "geopoint".toList ∧ Lexer.dataTypeOf "text".toList = "string".toList := by decide +kernel
+example : ∃ t ∈ (scanWith pinnedRules "2020-01-01 - ${a}".toList).1, Lexer.pinnedOverrideNames.contains t.1 = true := by
+  decide +kernel
 -- lexer: the traps of DESIGN Appendix F on the pinned rules
 example : (scanWith pinnedRules "a <= b".toList).1.map (·.1) = ["NAME", "WHITESPACE", "OPS_COMP", "OPS_COMP", "WHITESPACE", "NAME"] := by
   decide +kernel
@@ -433,7 +480,8 @@ example : (scanWith pinnedRules "a:b:c".toList).1 = [("NAME", "a:b".toList), ("O
   decide +kernel
 example : dynamicWith pinnedRules "now()".toList "text".toList = true
     ∧ dynamicWith pinnedRules "2020-01-01".toList "date".toList = false
-    ∧ dynamicWith pinnedRules "1 - today()".toList "date".toList = false
+    ∧ dynamicWith pinnedRules "1 - today()".toList "date".toList = true
+    ∧ dynamicWith pinnedRules "1 - 2".toList "date".toList = false
     ∧ dynamicWith pinnedRules "1 - today()".toList "text".toList = true := by decide +kernel
 example : ∃ t ∈ (scanWith pinnedRules "now()".toList).1, Pyxv.Gen.defaultDynamicTokenNames.contains t.1 = true := by
   decide +kernel
